@@ -311,6 +311,9 @@ def oracle_xnlri(c, obs):
         x = expand(c['x'])
         if (x[7] == 0 or not x[8]) and (obs[5][7] != 0 or obs[5][8]):
             return 'not stored faithfully: a MUP Type 1 route given without a source address is listed with one'
+    why = c17held.mup_t1_listing_wrong(obs[5])
+    if why:
+        return 'an accepted MUP Type 1 route is not shown as it is: ' + why
     if c['x'][0] == 18:
         why = lsn_must_refuse(expand(c['x']))
         if why:
